@@ -6,4 +6,4 @@ Extraction "c17_model.ml"
   py_int_of_bytes utf8_valid bdecode decode_datagram benc enc_defined ref_benc
   value_of_message encode_message raw_of_message contacts_val peers_val dict_of_items
   make_compact_ip make_compact_address decode_compact_address
-  probe_receive probe_failures probe_processed request_valid.
+  probe_receive probe_failures probe_processed request_valid invalid_method_text lru_run failures_run.
